@@ -160,9 +160,11 @@ class CacheWarmer(Entity):
         self._keys_warmed = 0
         self._keys_failed = 0
 
-        # Create initial warming event
+        # Create initial warming event, stamped with the current instant: stamped with the
+        # epoch it lies in the past (and is discarded by the engine) whenever warming is
+        # started from inside a running simulation
         return Event(
-            time=Instant.Epoch,  # Will be scheduled at current time
+            time=self._clock.now if self._clock is not None else Instant.Epoch,
             event_type="cache_warm",
             target=self,
             context={"action": "warm_next"},
